@@ -240,7 +240,7 @@ macro_rules! observe {
     }};
 }
 
-impl<Ix: IndexType> Driver<Ix> {
+impl<Ix: SIx> Driver<Ix> {
     pub fn new(ixname: &str) -> Self {
         Driver { obj: Obj::GD(Graph::with_capacity(0, 0)), serial: 1, ixname: ixname.to_string(), nobs: 0, poisoned: false }
     }
@@ -631,6 +631,15 @@ impl<Ix: IndexType> Driver<Ix> {
                 log.ev(o);
                 return;
             }
+            "serde" => {
+                // C17: serialize, optionally mutate the stream, deserialize (possibly into the other
+                // container type); logs a `ser` event (JSON document = wire format) and a `de` event
+                let fmt = op["fmt"].as_str().unwrap_or("json").to_string();
+                let to = op["to"].as_str().unwrap_or("same").to_string();
+                let mutation = op.get("mut").cloned().unwrap_or(json!("none"));
+                self.serde_op(&fmt, &to, &mutation, log, rng);
+                return;
+            }
             "ac_wrap" => {
                 let via_tryfrom = op["via"] == "try_from";
                 let (newobj, ret) = match &self.obj {
@@ -729,10 +738,116 @@ impl<Ix: IndexType> Driver<Ix> {
     }
 }
 
+/// TLC-readable copy of a serde_json document: null -> "none", a null edge -> [-1,-1,-1]
+fn transcode(v: &Value, in_edges: bool) -> Value {
+    match v {
+        Value::Null => if in_edges { json!([-1, -1, -1]) } else { json!("none") },
+        Value::Array(a) => Value::Array(a.iter().map(|x| transcode(x, in_edges)).collect()),
+        Value::Object(o) => Value::Object(o.iter().map(|(k, x)| (k.clone(), transcode(x, k == "edges"))).collect()),
+        x => x.clone(),
+    }
+}
+
+/// one structural mutation of a JSON graph document; returns a description
+fn mutate_json(doc: &mut Value, rng: &mut Rng, maxix: usize) -> String {
+    let nn = doc["nodes"].as_array().map(|a| a.len()).unwrap_or(0);
+    let nh = doc["node_holes"].as_array().map(|a| a.len()).unwrap_or(0);
+    let ne = doc["edges"].as_array().map(|a| a.len()).unwrap_or(0);
+    let bound = nn + nh;
+    let pick_edge = |rng: &mut Rng, doc: &Value| -> Option<usize> {
+        let live: Vec<usize> = (0..ne).filter(|&i| !doc["edges"][i].is_null()).collect();
+        if live.is_empty() { None } else { Some(live[rng.below(live.len())]) }
+    };
+    match rng.below(16) {
+        0 => { let f = *rng.pick(&["nodes", "node_holes", "edge_property", "edges"]); doc.as_object_mut().unwrap().remove(f); format!("drop field {}", f) }
+        1 => { if let Some(i) = pick_edge(rng, doc) { let k = rng.below(2); doc["edges"][i][k] = json!(bound + rng.below(3)); format!("edge {} endpoint out of range", i) } else { "nop".into() } }
+        2 => { if let Some(i) = pick_edge(rng, doc) { let k = rng.below(2); doc["edges"][i][k] = json!(maxix); format!("edge {} endpoint = max index", i) } else { "nop".into() } }
+        3 => { // endpoint = a declared hole
+            let holes: Vec<u64> = doc["node_holes"].as_array().map(|a| a.iter().filter_map(|x| x.as_u64()).collect()).unwrap_or_default();
+            if let (Some(i), false) = (pick_edge(rng, doc), holes.is_empty()) { let k = rng.below(2); doc["edges"][i][k] = json!(holes[rng.below(holes.len())]); format!("edge {} endpoint = hole", i) } else { "nop".into() } }
+        4 => { let p = doc["edge_property"].as_str().unwrap_or("").to_string(); doc["edge_property"] = json!(if p == "directed" { "undirected" } else { "directed" }); "edge_property flipped".into() }
+        5 => { doc["edge_property"] = json!("sideways"); "edge_property unknown".into() }
+        6 => { if let Some(a) = doc["node_holes"].as_array_mut() { if !a.is_empty() { let x = a[rng.below(a.len())].clone(); a.push(x); } else { a.push(json!(rng.below(bound + 1))); } } "node_holes: duplicate / extra hole".into() }
+        7 => { if let Some(a) = doc["node_holes"].as_array_mut() { a.reverse(); a.insert(0, json!(bound + 2)); } "node_holes: unsorted and beyond the bound".into() }
+        8 => { if let Some(a) = doc["node_holes"].as_array_mut() { a.push(json!(bound + rng.below(3))); } "node_holes: hole at/after the end".into() }
+        9 => { if let Some(a) = doc["nodes"].as_array_mut() { if !a.is_empty() { let i = rng.below(a.len()); a.remove(i); } } "nodes: one removed".into() }
+        10 => { if let Some(a) = doc["nodes"].as_array_mut() { a.push(json!(777)); } "nodes: one appended".into() }
+        11 => { if let Some(i) = pick_edge(rng, doc) { doc["edges"][i] = Value::Null; format!("edge {} nulled", i) } else { "nop".into() } }
+        12 => { let f = *rng.pick(&["nodes", "node_holes", "edges"]); doc[f] = json!(5); format!("{} retyped to a number", f) }
+        13 => { if let Some(i) = pick_edge(rng, doc) { if let Some(a) = doc["edges"][i].as_array_mut() { a.pop(); } format!("edge {} truncated", i) } else { "nop".into() } }
+        14 => { if let Some(i) = pick_edge(rng, doc) { let e = doc["edges"][i].clone(); doc["edges"].as_array_mut().unwrap().push(e); format!("edge {} duplicated at the end", i) } else { "nop".into() } }
+        _ => { if let Some(i) = pick_edge(rng, doc) { doc["edges"][i][0] = json!(-1); format!("edge {} negative endpoint", i) } else { "nop".into() } }
+    }
+}
+
+fn mutate_bytes(b: &mut Vec<u8>, rng: &mut Rng) -> String {
+    if b.is_empty() { return "nop".into(); }
+    match rng.below(5) {
+        0 => { let n = rng.below(b.len()); b.truncate(n); format!("truncated to {} bytes", n) }
+        1 => { let i = rng.below(b.len()); b[i] ^= 1 << rng.below(8); format!("bit flip at {}", i) }
+        2 => { let i = rng.below(b.len().min(24)); b[i] = *rng.pick(&[0x7f, 0xff, 0x01, 0x00]); format!("length-ish byte at {} overwritten", i) }
+        3 => { let i = rng.below(b.len()); let x = b[i]; b.insert(i, x); format!("byte duplicated at {}", i) }
+        _ => { let i = rng.below(b.len()); b.remove(i); format!("byte removed at {}", i) }
+    }
+}
+
+impl<Ix: SIx> Driver<Ix> {
+    fn serde_op(&mut self, fmt: &str, to: &str, mutation: &Value, log: &mut Log, rng: &mut Rng) {
+        let stable_now = self.is_stable();
+        let directed = self.is_directed();
+        let to_stable = match to { "graph" => false, "stable" => true, _ => stable_now };
+        let mutate = mutation != "none";
+        macro_rules! ser { ($g:expr) => {{ if fmt == "json" { (Some(serde_json::to_value($g).unwrap()), None) } else { (None, Some(bincode::serialize($g).unwrap())) } }}}
+        let (mut doc, mut bytes): (Option<Value>, Option<Vec<u8>>) = match &self.obj {
+            Obj::GD(g) => ser!(g), Obj::GU(g) => ser!(g), Obj::SD(g) => ser!(g), Obj::SU(g) => ser!(g),
+            _ => panic!("serde through Acyclic is not driven"),
+        };
+        let (nc, ec, _, _) = self.counts();
+        let mut ev = json!({"op":"ser","fmt":fmt,"ret":rs("ok"),"nc":nc,"ec":ec});
+        if let Some(d) = &doc { ev["doc"] = transcode(d, false); }
+        log.ev(ev);
+        let mut desc = "none".to_string();
+        if mutate {
+            desc = match (&mut doc, &mut bytes) {
+                (Some(d), _) => mutate_json(d, rng, maxix::<Ix>()),
+                (_, Some(b)) => mutate_bytes(b, rng),
+                _ => unreachable!(),
+            };
+        }
+        macro_rules! de { ($T:ty) => {{
+            let r: Result<Result<$T, String>, ()> = guard(|| {
+                if let Some(d) = &doc { serde_json::from_value::<$T>(d.clone()).map_err(|e| e.to_string()) }
+                else { bincode::deserialize::<$T>(bytes.as_ref().unwrap()).map_err(|e| e.to_string()) }
+            });
+            r
+        }}}
+        let mut de_ev = json!({"op":"de","fmt":fmt,"to": if to_stable {"stable"} else {"graph"},"mut":desc,"mutated":mutate});
+        macro_rules! finish { ($r:expr, $wrap:path) => {{
+            match $r {
+                Err(()) => { de_ev["ret"] = rpanic(); }
+                Ok(Err(_msg)) => { de_ev["ret"] = json!(["err_s", "Err"]); }
+                Ok(Ok(g)) => { self.obj = $wrap(g); de_ev["ret"] = rs("ok"); }
+            }
+        }}}
+        match (to_stable, directed) {
+            (false, true) => { let r = de!(Graph<i32, i32, Directed, Ix>); finish!(r, Obj::GD) }
+            (false, false) => { let r = de!(Graph<i32, i32, Undirected, Ix>); finish!(r, Obj::GU) }
+            (true, true) => { let r = de!(StableGraph<i32, i32, Directed, Ix>); finish!(r, Obj::SD) }
+            (true, false) => { let r = de!(StableGraph<i32, i32, Undirected, Ix>); finish!(r, Obj::SU) }
+        }
+        let (nc, ec, _, _) = self.counts();
+        de_ev["nc"] = json!(nc);
+        de_ev["ec"] = json!(ec);
+        de_ev["st"] = self.project();
+        de_ev["directed_after"] = json!(self.is_directed());
+        log.ev(de_ev);
+    }
+}
+
 // ----------------------------------------------------------------------------------------------
 // script execution / generation
 
-pub fn exec_segment<Ix: IndexType>(ixname: &str, ops: &[Value], log: &mut Log, seed: u64) {
+pub fn exec_segment<Ix: SIx>(ixname: &str, ops: &[Value], log: &mut Log, seed: u64) {
     let mut d: Driver<Ix> = Driver::new(ixname);
     let mut rng = Rng::new(seed);
     for op in ops {
@@ -780,7 +895,7 @@ pub struct GenCfg {
     pub allow_convert: bool,
 }
 
-pub fn random_segment<Ix: IndexType>(ixname: &str, cfg: &GenCfg, rng: &mut Rng, log: &mut Log) {
+pub fn random_segment<Ix: SIx>(ixname: &str, cfg: &GenCfg, rng: &mut Rng, log: &mut Log) {
     let mut d: Driver<Ix> = Driver::new(ixname);
     let ixmax = maxix::<Ix>();
     let ctor = *rng.pick(&["with_capacity", "default", "caps"]);
@@ -897,7 +1012,7 @@ pub fn random_segment<Ix: IndexType>(ixname: &str, cfg: &GenCfg, rng: &mut Rng, 
 /// Vacancy-stress scenario: fill up, punch holes, apply one whole-graph operation, then refill until
 /// the index type is exhausted (two failing calls), observing at each stage.  Targets the free-list
 /// bookkeeping of StableGraph and the swap-renumbering of Graph right at the index limit.
-pub fn scenario_segment<Ix: IndexType>(ixname: &str, stable: bool, directed: bool, rng: &mut Rng, log: &mut Log) {
+pub fn scenario_segment<Ix: SIx>(ixname: &str, stable: bool, directed: bool, rng: &mut Rng, log: &mut Log) {
     let mut d: Driver<Ix> = Driver::new(ixname);
     let ixmax = maxix::<Ix>();
     assert!(ixmax <= 16);
@@ -984,7 +1099,7 @@ pub fn gen_scenarios(seed: u64, segments: usize, stable: bool, log: &mut Log) {
 /// C14: histories on Acyclic<DiGraph> / Acyclic<StableDiGraph>: build a (possibly cyclic) graph, wrap it,
 /// then add nodes / edges (forward, backward, self, cycle-closing), remove edges and nodes (non-last,
 /// absent, repeated), re-wrap after unwrapping and mutating.
-pub fn acyclic_segment<Ix: IndexType>(ixname: &str, stable: bool, len: usize, rng: &mut Rng, log: &mut Log) {
+pub fn acyclic_segment<Ix: SIx>(ixname: &str, stable: bool, len: usize, rng: &mut Rng, log: &mut Log) {
     let mut d: Driver<Ix> = Driver::new(ixname);
     let ixmax = maxix::<Ix>();
     d.apply(&json!({"op":"reset","kind": if stable {"stable"} else {"graph"},"directed":true,"ctor":"with_capacity"}), log, rng);
@@ -1054,6 +1169,74 @@ pub fn acyclic_segment<Ix: IndexType>(ixname: &str, stable: bool, len: usize, rn
         }
     }
     d.apply(&json!({"op":"obs"}), log, rng);
+}
+
+/// C17: histories that leave vacancies, then serde round trips (JSON / bincode, same type and across
+/// Graph <-> StableGraph), mutated streams, and further use of whatever came back.
+pub fn serde_segment<Ix: SIx>(ixname: &str, stable: bool, directed: bool, len: usize, rng: &mut Rng, log: &mut Log) {
+    let mut d: Driver<Ix> = Driver::new(ixname);
+    let ixmax = maxix::<Ix>();
+    d.apply(&json!({"op":"reset","kind": if stable {"stable"} else {"graph"},"directed":directed,"ctor":"with_capacity"}), log, rng);
+    // mostly stay one below the index limit: a completely full graph does not round-trip (recorded
+    // finding), and that would end the segment early; one segment in five goes to the limit
+    let slack = if rng.chance(1, 5) { 0 } else { 1 };
+    let cap_n = (ixmax - slack).min(7);
+    let cap_e = (ixmax - slack).min(10);
+    let mut steps = 0;
+    while steps < len {
+        steps += 1;
+        let (nc, ec, nb, eb) = d.counts();
+        let ln = d.live_nodes();
+        let r = rng.below(100);
+        let op = if r < 22 {
+            if nc >= cap_n { continue; }
+            json!({"op":"add_node"})
+        } else if r < 50 {
+            if ln.is_empty() || ec >= cap_e { continue; }
+            let a = ln[rng.below(ln.len())];
+            let b = if rng.chance(1, 8) { a } else { ln[rng.below(ln.len())] };
+            json!({"op":"add_edge","a":a,"b":b})
+        } else if r < 58 {
+            let le = d.live_edges();
+            if le.is_empty() { continue; }
+            json!({"op":"remove_edge","e":le[rng.below(le.len())]})
+        } else if r < 66 {
+            if ln.is_empty() { continue; }
+            let a = ln[rng.below(ln.len())];
+            if !d.is_stable() && d.degree(a) > 5 { continue; }
+            json!({"op":"remove_node","a":a})
+        } else if r < 92 {
+            let fmt = if rng.chance(3, 5) { "json" } else { "bincode" };
+            let to = *rng.pick(&["same", "same", "graph", "stable"]);
+            let mutated = rng.chance(1, 2);
+            json!({"op":"serde","fmt":fmt,"to":to,"mut": if mutated {"random"} else {"none"}})
+        } else {
+            json!({"op":"obs"})
+        };
+        let was_serde = op["op"] == "serde";
+        d.apply(&op, log, rng);
+        if was_serde {
+            // use what came back
+            d.apply(&json!({"op":"obs"}), log, rng);
+        }
+        let _ = (nb, eb);
+    }
+    d.apply(&json!({"op":"obs"}), log, rng);
+}
+
+pub fn gen_serde(seed: u64, segments: usize, len: usize, log: &mut Log) {
+    let mut rng = Rng::new(seed ^ 0x5e4de);
+    for i in 0..segments {
+        let stable = i % 2 == 0;
+        let directed = (i / 2) % 2 == 0;
+        match i % 5 {
+            0 => serde_segment::<u32>("u32", stable, directed, len, &mut rng, log),
+            1 => serde_segment::<u8>("u8", stable, directed, len, &mut rng, log),
+            2 => serde_segment::<u16>("u16", stable, directed, len, &mut rng, log),
+            3 => serde_segment::<Ix4>("ix4", stable, directed, len, &mut rng, log),   // streams at the index limit
+            _ => serde_segment::<Ix7>("ix7", stable, directed, len, &mut rng, log),
+        }
+    }
 }
 
 pub fn gen_acyclic(seed: u64, segments: usize, len: usize, log: &mut Log) {
